@@ -364,9 +364,13 @@ def render_canon(d: dict, seed: int = 0) -> str:
     pre, post = CANON_HEAD[d["head"]]
     text = pre + body + post
     if d["layers"]:
-        let = "let\n  version = \"1.0\";\n  src = fetchurl { url = \"u\"; };\nin\n"
-        if d["head"] in ("lam_formals_ml", "lam_formals_inline", "lam_formals_at"):
-            text = pre + let + body + post
+        lets = ["let\n  version = \"1.0\";\n  src = fetchurl { url = \"u\"; };\nin\n", "let\n  pname = \"p\";\nin\n",
+                "let\n  inherit (lib) licenses;\n  # why\n  meta = { };\nin\n"]
+        let = ""
+        for k in range(d["layers"]):
+            let += lets[k] + (f"# after in {k + 1}\n" if d.get("inc") else "")
+        if d["head"] in ("lam_formals_ml", "lam_formals_inline", "lam_formals_at", "lam_id"):
+            text = (pre if d["head"] != "lam_id" else "finalAttrs:\n") + let + body + post
         else:
             text = let + text
     if d["foot"]:
